@@ -1,8 +1,8 @@
 (* Page.v — model of pypika's pagination (C12): the limit/offset/slice/top/fetch_next/limit_by
    builder steps (queries.py 579-585, 1066-1072, 1108-1116; dialects.py 351-361, 706-723, 867-873),
    every _apply_pagination override with its _limit_sql/_offset_sql templates (queries.py 1373-1380,
-   1547-1551; dialects.py 351-357, 387-395, 725-734, 875-889), _SetOperation's own LIMIT/OFFSET
-   (queries.py 650-654, 688-692), UPDATE ... LIMIT (queries.py 1286-1287), MSSQL TOP (dialects.py
+   1547-1551; dialects.py 351-357, 387-395, 725-734, 875-889), _SetOperation's pagination through a fresh
+   builder of the base class (queries.py _SetOperation._apply_pagination, since 8f3d161), UPDATE ... LIMIT (queries.py 1286-1287), MSSQL TOP (dialects.py
    742-755), the tail assembly order of QueryBuilder.get_sql (orderby, pagination, for_update), and a
    reader for the three pagination grammars of the property.  Definitions only. *)
 From PV Require Import Base.
@@ -120,9 +120,6 @@ Definition limit_toks (c : cls) (l : option Z) : list string :=
 (* _offset_sql: " OFFSET {offset}"  |  " OFFSET {offset} ROWS".format(offset=self._offset or 0) *)
 Definition offset_toks (c : cls) (o : option Z) : list string :=
   if is_fetch c then ["OFFSET"; pyZ (if truthyZ o then o else Some 0%Z); "ROWS"] else ["OFFSET"; pyZ o].
-(* _SetOperation._limit_sql / _offset_sql: always the LIMIT/OFFSET form, whatever the base query's class *)
-Definition setop_limit_toks (l : option Z) : list string := ["LIMIT"; pyZ l].
-Definition setop_offset_toks (o : option Z) : list string := ["OFFSET"; pyZ o].
 
 (* ClickHouse _limit_by_sql *)
 Definition by_text (b : list string) : string := "(" ++ join "," b ++ ")".
@@ -138,11 +135,11 @@ Definition gp (b : bool) (x : piece) : list piece := if b then [x] else [].
 
 Definition page_pieces (c : cls) (k : kind) (p : page) : list piece :=
   match k with
-  | KSetOp =>                               (* _SetOperation.get_sql: if self._limit is not None / if self._offset *)
-      gp (is_some (lim p)) PLimit ++ gp (truthyZ (off p)) POffset
   | KUpdate =>                              (* UPDATE branch of QueryBuilder.get_sql: only if self._limit is not None *)
       gp (is_some (lim p)) PLimit
-  | KSelect =>
+  | KSelect | KSetOp =>
+      (* KSetOp (8f3d161): _SetOperation._apply_pagination copies _limit/_offset into a fresh builder of the base
+         query's class and calls that builder's _apply_pagination: the guards and order of the class's SELECT *)
       match c with
       | COracle =>                          (* offset first *)
           gp (truthyZ (off p)) POffset ++ gp (is_some (lim p)) PLimit
@@ -154,11 +151,9 @@ Definition page_pieces (c : cls) (k : kind) (p : page) : list piece :=
   end.
 
 Definition piece_toks (c : cls) (k : kind) (p : page) (x : piece) : list string :=
-  match k, x with
-  | KSetOp, PLimit => setop_limit_toks (lim p)
-  | KSetOp, POffset => setop_offset_toks (off p)
-  | _, PLimit => limit_toks c (lim p)
-  | _, POffset => offset_toks c (off p)
+  match x with
+  | PLimit => limit_toks c (lim p)
+  | POffset => offset_toks c (off p)
   end.
 
 Definition lby_toks (c : cls) (k : kind) (p : page) : list string :=
@@ -205,7 +200,7 @@ Definition clause_eqb (a b : clause) : bool :=
   | _, _ => false
   end.
 Definition select_tail_order : list clause := [ClOrderBy; ClPagination; ClForUpdate].
-Definition setop_tail_order : list clause := [ClOrderBy; ClLimit; ClOffset].
+Definition setop_tail_order : list clause := [ClOrderBy; ClPagination].
 Definition update_tail_order : list clause := [ClWhere; ClLimit].
 
 (* ---- reading a pagination tail back: the three grammars of the property ---- *)
@@ -350,8 +345,7 @@ Definition page_ok (p : page) : bool :=
 Definition frag (c : cls) (k : kind) (p : page) : bool :=
   match k with
   | KSelect => if is_fetch c then true else is_some (lim p) || negb (truthyZ (off p))
-  | KSetOp => if is_fetch c then negb (is_some (lim p)) && negb (truthyZ (off p))
-              else is_some (lim p) || negb (truthyZ (off p))
+  | KSetOp => if is_fetch c then true else is_some (lim p) || negb (truthyZ (off p))
   | KUpdate => match c with CMSSQL => negb (is_some (lim p)) | _ => true end
   end.
 
